@@ -95,6 +95,12 @@ pub fn val_any(max_big: u32) -> BoxedStrategy<Blob> {
         1 => (any::<u8>(), 1024u32..max_big.max(1025)).prop_map(|(fill, n)| Blob::Pad { fill, n, tail: vec![] }),
         1 => (0u16..40, any::<bool>(), 0u8..=6, 0u64..1000)
             .prop_map(|(pad, v2, codec, count)| Blob::Trailer { pad, v2, codec, count }),
+        // beyond the 32/64 KiB windows and frame chunk sizes of the codecs (incompressible and compressible)
+        1 => prop_oneof![
+            (60_000u32..200_000, any::<u64>()).prop_map(|(n, seed)| Blob::Rand { n, seed }),
+            (any::<u8>(), 60_000u32..200_000).prop_map(|(fill, n)| Blob::Pad { fill, n, tail: vec![7] }),
+            (any::<u8>(), 4_000_000u32..4_400_000).prop_map(|(fill, n)| Blob::Pad { fill, n, tail: vec![] }),
+        ],
     ]
     .boxed()
 }
